@@ -165,6 +165,7 @@ type Exec struct {
 	closed     map[any]struct{}
 	timerChans map[uintptr]timerChan
 	atomic     atomic.Bool
+	prevParked map[*parked]bool
 }
 
 type timerChan struct {
@@ -429,7 +430,15 @@ func (x *Exec) snapshot() []*parked {
 			fresh = append(fresh, p)
 		}
 	}
-	sort.Slice(fresh, func(i, j int) bool { return fresh[i].gid < fresh[j].gid })
+	// canonical naming: by the site they first park at, then by creation order (goid).
+	// (Goroutines spawned by different library goroutines may be created in either
+	// order; their first go-plugin site identifies them.)
+	sort.Slice(fresh, func(i, j int) bool {
+		if fresh[i].site != fresh[j].site {
+			return fresh[i].site < fresh[j].site
+		}
+		return fresh[i].gid < fresh[j].gid
+	})
 	for _, p := range fresh {
 		if _, ok := x.lids[p.gid]; !ok {
 			x.lids[p.gid] = x.nextLid
@@ -441,7 +450,16 @@ func (x *Exec) snapshot() []*parked {
 	for _, p := range out {
 		p.lid = x.lids[p.gid]
 	}
-	sort.Slice(out, func(i, j int) bool { return out[i].lid < out[j].lid })
+	// canonical order: by site, then by name. Symmetric goroutines (same code, e.g. two
+	// concurrent Kill calls) may swap roles between runs because of choices made inside
+	// uninstrumented libraries; ordering by site makes a decision list mean "the goroutine
+	// at this site", which is invariant under such swaps.
+	sort.Slice(out, func(i, j int) bool {
+		if out[i].site != out[j].site {
+			return out[i].site < out[j].site
+		}
+		return out[i].lid < out[j].lid
+	})
 	return out
 }
 
@@ -560,13 +578,28 @@ func (x *Exec) loop(opt Options) {
 		}
 		idle = 0
 		settled = false
-		// canonical order: goroutine that ran last first, then ascending lid
-		for i, p := range en {
-			if p.lid == x.lastLid && i != 0 {
-				copy(en[1:i+1], en[:i])
-				en[0] = p
-				break
+		// canonical order: by site (see snapshot); the goroutine that ran last goes first when
+		// it is the only one that newly parked in this step (it simply continued). When several
+		// goroutines parked in the same step their roles may have been assigned by a choice inside
+		// an uninstrumented library (same-instant timers, map order), so the site order decides.
+		fresh := 0
+		for _, p := range ps {
+			if !x.prevParked[p] {
+				fresh++
 			}
+		}
+		if fresh <= 1 {
+			for i, p := range en {
+				if p.lid == x.lastLid && !x.prevParked[p] && i != 0 {
+					copy(en[1:i+1], en[:i])
+					en[0] = p
+					break
+				}
+			}
+		}
+		x.prevParked = make(map[*parked]bool, len(ps))
+		for _, p := range ps {
+			x.prevParked[p] = true
 		}
 		var alts []alt
 		for _, p := range en {
@@ -609,9 +642,8 @@ func (x *Exec) loop(opt Options) {
 		// state signature / rolling hash
 		h := fnv.New64a()
 		for _, p := range ps {
-			h.Write([]byte(strconv.Itoa(p.lid)))
 			h.Write([]byte(p.site))
-			h.Write([]byte{byte(p.kind)})
+			h.Write([]byte{byte(p.kind), 0})
 		}
 		h.Write([]byte(strconv.Itoa(len(alts))))
 		sg := h.Sum64()
